@@ -49,7 +49,7 @@ def run_shards(c, shards, procs=8, case_timeout=20, mem_mb=4096):
         res = list(ex.map(one, shards))
     traces = [t for t, _ in res]
     crashes = [x for _, cr in res for x in cr]
-    c.validate(SPEC, "Trace_Term", "Trace_Term.cfg", traces, key, procs=procs, timeout=3000, xmx="4g")
+    c.validate(SPEC, "Trace_Term", "Trace_Term.cfg", traces, key, procs=procs, timeout=6000, xmx="4g")
     # attach the crashing inputs to the violation records (for the replay files)
     by_case = {str(cr["case"]): cr for cr in crashes}
     for v in c.viols:
